@@ -71,6 +71,7 @@ def max_accepted(rel, k):
 
 
 def run(R):
+    op_rules(R)
     F = R.F
     # (1) who writes ops, and only through extend/insert
     sites = R.who_may_write("C06.ops", SR, "ops", [SR + "::merge", SR + "::verified_merge", SR + "::add_op"], floor=3,
@@ -268,3 +269,100 @@ class _SizeGuard:
                 tr.seed_bool(c["d"], False)
         tr.run()
         return n, tr.accept, tr.reject
+
+
+ROP = "ant_registers::register_op::RegisterOp"
+CRDT = "ant_registers::reg_crdt::RegisterCrdt"
+
+
+def op_rules(R):
+    """RegisterOp: the signature covers address, crdt_op and source; verify_signature is the BLS verdict over the op's own
+    fields; RegisterCrdt::apply_op applies only an op addressed to this register."""
+    from flow import backward
+    from rules import PL, AggSink
+    F = R.F
+    vs = R.body("C06.op.sig", ROP + "::verify_signature")
+    if vs is not None:
+        R.gate("C06.op.sig", vs, RetSink("Ok"), [[CallGuard(["blsttc::PublicKey::verify"], ("true",), "pk.verify(signature, bytes)")]],
+               descr="verify_signature is Ok only if the BLS verification holds")
+        prep(vs)
+        ta = Taint(vs, through="all")
+        sig = Taint(vs).closure({d for d, r, p in field_reads(vs, "signature")})
+        msg = ta.closure(call_results([ROP + "::bytes_for_signing"])(vs))
+        ver = [b for b in vs.blocks if b["term"]["k"] == "call" and callee_matches(b["term"], ["blsttc::PublicKey::verify"])]
+        pk = Taint(vs).closure(PL(vs, 1))
+        ok = bool(ver) and all(op_local(b["term"]["args"][0]) in pk and op_local(b["term"]["args"][1]) in sig and op_local(b["term"]["args"][2]) in msg for b in ver)
+        if not ok:
+            R.viol("C06.op.sig.args", "op-verify-args", "verify_signature is not pk.verify(&self.signature, bytes_for_signing(..))", vs, vs.lines[0])
+        R.inst("C06.op.sig.args", "K6 flows-to", "verify_signature = pk.verify(self.signature, bytes_for_signing(self.address, self.crdt_op, self.source))", len(ver), ok)
+        # the op's own fields are what is hashed
+        cs = [b for b in vs.blocks if b["term"]["k"] == "call" and callee_matches(b["term"], [ROP + "::bytes_for_signing"])]
+        order = ["address", "crdt_op", "source"]
+        okf = len(cs) == 1
+        covered = []
+        if okf:
+            for i, f in enumerate(order):
+                reads = {d for d, r, p in field_reads(vs, f)}
+                a = op_local(cs[0]["term"]["args"][i]) if i < len(cs[0]["term"]["args"]) else None
+                if a is not None and (backward(vs, a) & reads):
+                    covered.append(f)
+                else:
+                    okf = False
+                    R.viol("C06.op.signed", "unsigned-arg:%s" % f, "verify_signature does not pass self.%s as argument %d of bytes_for_signing" % (f, i), vs, vs.lines[0])
+        adt = F.adts.get(ROP)
+        fields = [f["name"] for f in adt["variants"][0]["fields"]] if adt else []
+        unsigned = sorted(set(fields) - set(covered))
+        if unsigned != ["signature"]:
+            okf = False
+            R.viol("C06.op.signed", "unsigned-fields:%s" % ",".join(unsigned), "RegisterOp fields not covered by the op signature: %s (expected only `signature`)" % unsigned, vs, vs.lines[0])
+        bs = R.body("C06.op.signed", ROP + "::bytes_for_signing")
+        if bs is not None:
+            prep(bs)
+            tb = Taint(bs, through="all")
+            from flow import whole_value_reaches
+            for i, f in enumerate(order):
+                if 0 not in tb.closure(PL(bs, i)):
+                    okf = False
+                    R.viol("C06.op.signed", "param-dropped:%s" % f, "bytes_for_signing drops its `%s` parameter" % f, bs, bs.lines[0])
+                else:
+                    whole, part = whole_value_reaches(bs, PL(bs, i))
+                    if not whole:
+                        okf = False
+                        R.viol("C06.op.signed", "param-partial:%s" % f, "bytes_for_signing hashes only part of `%s` (%s), not the whole value" % (f, ", ".join("." + x for x in sorted(part)) or "a projection"), bs, bs.lines[0])
+        R.inst("C06.op.signed", "K6 field coverage", "every RegisterOp field except `signature` is covered by the op signature", len(fields), okf, {"fields": fields, "signed": covered})
+    nw = R.body("C06.op.new", ROP + "::new")
+    if nw is not None:
+        prep(nw)
+        ta = Taint(nw, through="all")
+        cs = [b for b in nw.blocks if b["term"]["k"] == "call" and callee_matches(b["term"], [ROP + "::bytes_for_signing"])]
+        aggs = [(b, st) for b in nw.blocks if not b["cleanup"] for st in b["stmts"] if st["rv"]["k"] == "agg" and st["rv"].get("adt", "").endswith("RegisterOp")]
+        ok = len(cs) == 1 and len(aggs) == 1
+        if ok:
+            rv = aggs[0][1]["rv"]
+            for i, f in enumerate(["address", "crdt_op", "source"]):
+                stored = op_local(rv["ops"][rv["fields"].index(f)])
+                signed = op_local(cs[0]["term"]["args"][i])
+                # both derive from the same parameter / the same public_key() result
+                roots_s = backward(nw, stored) if stored is not None else set()
+                roots_g = backward(nw, signed) if signed is not None else set()
+                if not (roots_s & roots_g):
+                    ok = False
+                    R.viol("C06.op.new", "signed-differs:%s" % f, "RegisterOp::new signs a different `%s` than the one it stores" % f, nw, nw.lines[0])
+            sg = op_local(rv["ops"][rv["fields"].index("signature")])
+            signs = ta.closure(call_results(["blsttc::SecretKey::sign"])(nw))
+            if sg not in signs:
+                ok = False
+                R.viol("C06.op.new", "signature-source", "RegisterOp::new does not store signer.sign(bytes_for_signing(..))", nw, nw.lines[0])
+        else:
+            R.viol("C06.op.new", "shape", "RegisterOp::new: expected one bytes_for_signing call and one RegisterOp literal", nw, nw.lines[0])
+        R.inst("C06.op.new", "K6 flows-to", "new() signs exactly the (address, crdt_op, source) it stores", 4, ok)
+    ap = R.body("C06.apply.addr", CRDT + "::apply_op")
+    if ap is not None:
+        def fld(name, root_idx):
+            def f(body):
+                roots = Taint(body).closure(PL(body, root_idx))
+                return {d for d, r, p in field_reads(body, name) if r in roots or True and p and p[0] in roots}
+            return f
+        R.gate("C06.apply.addr", ap, CallSink("*crdts::traits::CmRDT>::apply", "*CmRDT::apply"),
+               [[CmpGuard(fld("address", 0), fld("address", 1), "Eq", "self.address == op.address", through="all")]],
+               descr="apply_op applies an operation only if it is addressed to this register")
